@@ -173,6 +173,8 @@ pub fn run_c02(ctx: &Ctx) -> i32 {
         "U_big_names",
         &[
             "/.hidden",
+            "/...",
+            "/....",
             "/a b",
             "/~",
             "/*",
